@@ -122,9 +122,72 @@ func deliver(b *built, stream []byte, split int) string {
 	return out
 }
 
+// bigSeeds: first messages between three prefetch chunks and the matching limit, for the
+// protocols whose first message can legally be that large.
+func bigSeeds(sp mrun.Spec) [][]byte {
+	var out [][]byte
+	for _, total := range []int{3*2048 + 1, 7500, layer4.MaxMatchingBytes} {
+		switch sp.Module {
+		case "http":
+			head := "GET /big HTTP/1.1\r\nHost: example.com\r\nX-Pad: "
+			tail := "\r\n\r\n"
+			if n := total - len(head) - len(tail); n > 0 {
+				out = append(out, []byte(head+strings.Repeat("p", n)+tail))
+			}
+		case "postgres":
+			// length, protocol 3.0, "user" 0 <filler> 0 0
+			n := total - 4 - 4 - 5 - 2
+			if n > 0 {
+				m := []byte{byte(total >> 24), byte(total >> 16), byte(total >> 8), byte(total), 0, 3, 0, 0}
+				m = append(m, "user\x00"...)
+				m = append(m, strings.Repeat("u", n)...)
+				m = append(m, 0, 0)
+				out = append(out, m)
+			}
+		}
+	}
+	return out
+}
+
+// splitPoints: every split for ordinary messages; for the big ones the chunk boundaries, their
+// neighbours and a stride (the buffer grows in chunks from the first segment's length on).
+func splitPoints(n int) []int {
+	if n <= 600 {
+		out := make([]int, 0, n)
+		for i := 1; i < n; i++ {
+			out = append(out, i)
+		}
+		return out
+	}
+	set := map[int]bool{}
+	for _, b := range []int{0, 2048, 4096, 6144, 8192, n} {
+		for d := -3; d <= 3; d++ {
+			if i := b + d; i >= 1 && i < n {
+				set[i] = true
+			}
+		}
+	}
+	for i := 1; i < n; i += 97 {
+		set[i] = true
+	}
+	var out []int
+	for i := 1; i < n; i++ {
+		if set[i] {
+			out = append(out, i)
+		}
+	}
+	return out
+}
+
 func seedsOf(sc *Scn) [][]byte {
 	seen := map[string]bool{}
 	var out [][]byte
+	defer func() {}()
+	for _, sp := range sc.Specs {
+		if len(sp.Config) == 0 || string(sp.Config) == "{}" || string(sp.Config) == "null" {
+			out = append(out, bigSeeds(sp)...)
+		}
+	}
 	for _, sp := range sc.Specs {
 		k := 0
 		for _, s := range mrun.Seeds(sp) {
@@ -206,7 +269,7 @@ func run(tier string, scAny any, rep *runner.Report) {
 		if strings.Contains(whole, " read ") {
 			rep.Nontrivial++
 		}
-		for i := 1; i < len(stream); i++ {
+		for _, i := range splitPoints(len(stream)) {
 			got := deliver(b, stream, i)
 			rep.Executions++
 			rep.Transitions += 2
@@ -261,7 +324,7 @@ func main() {
 	runner.Main(&runner.Harness{
 		ID:    "C06",
 		Level: "model_checking",
-		Rule:  "route lists of the real stream matchers (one default configuration per protocol: every ordered pair; every filtered configuration paired with every other protocol's default), each route with a terminal recorder, alone and behind a proxy_protocol route whose shipped handler strips a PROXY v1 header; up to 6 corpus messages per matcher; each stream delivered whole and at EVERY two-segment split point through the real RouteList.Compile / prefetch; oracle: the outcome (recorder, bytes read, fallback, error) is the same as for whole delivery; states = distinct (route list, stream, split) triples",
+		Rule:  "route lists of the real stream matchers (one default configuration per protocol: every ordered pair; every filtered configuration paired with every other protocol's default), each route with a terminal recorder, alone and behind a proxy_protocol route whose shipped handler strips a PROXY v1 header; up to 6 corpus messages per matcher, plus first messages of 6145 / 7500 / 8192 bytes for http and postgres; each stream delivered whole and at EVERY two-segment split point (big messages: chunk boundaries +-3 and every 97th byte) through the real RouteList.Compile / prefetch; oracle: the outcome (recorder, bytes read, fallback, error) is the same as for whole delivery; states = distinct (route list, stream, split) triples",
 		Assumptions: []string{
 			"differential oracle: what the right outcome is for whole delivery is not judged here (C02, C14)",
 			"two segments per stream; all segmentations of abstract matchers are C02's",
